@@ -483,9 +483,38 @@ def solve_ivp_head(tier="quick", seed=0):
         dom = D.Round()
         got = {}
 
+        class Handler:
+            pass
+
+        class Builder:
+            def __init__(self, method):
+                self.method = method
+                self.args = []
+
         def ctor(it_, ode, t_eval, dense, first_step, x0, n):
             got.update(t_eval=t_eval, dense=dense, first_step=first_step, x0=x0, n=n)
-            raise PathEnd("handler_constructed")
+            return Handler()
+
+        def mk_builder(name):
+            def f(it_):
+                return Builder(name)
+            return f
+
+        def builder_method(mname):
+            def f(it_, recv, arg_ns, env, node):
+                if not isinstance(recv, Builder):
+                    return NotImplemented
+                vals = [it_.expr(a, env) for a in arg_ns]
+                if mname == "build":
+                    return recv
+                if mname == "solve":
+                    got["solver"] = recv.method
+                    got["builder_args"] = recv.args
+                    got["solve_args"] = vals
+                    raise PathEnd("dispatched")
+                recv.args.append((mname, vals))
+                return recv
+            return f
 
         class Ode:
             pass
@@ -496,8 +525,13 @@ def solve_ivp_head(tier="quick", seed=0):
         def const_ctor(it_, method, x0, y0):
             return RStruct("ContinuousOutput", {"constant": True, "x0": x0})
 
-        hooks = {"methods": {"n_events": m_n_events}, "fns": {"DefaultSolOut::new": ctor, "ContinuousOutput::constant": const_ctor},
-                 "globals": {}, "ctors": {}}
+        bm = {n_: builder_method(n_) for n_ in ("max_steps", "maybe_max_step", "maybe_first_step", "maybe_min_step", "maybe_nind1", "maybe_nind2",
+                                                  "maybe_nind3", "jac_storage", "mass_storage", "build", "solve", "dense_output")}
+        bm["n_events"] = m_n_events
+        fns = {"DefaultSolOut::new": ctor, "ContinuousOutput::constant": const_ctor}
+        for mn in ("RK4", "RK23", "DOPRI5", "DOP853", "RADAU", "BDF"):
+            fns[f"{mn}::builder"] = mk_builder(mn)
+        hooks = {"methods": bm, "fns": fns, "globals": {}, "ctors": {}}
         it = Interp(dom, its, hooks)
         it.preset = preset
         x0, xend, fs = dom.sym("x0"), dom.sym("xend"), dom.sym("first_step")
@@ -508,7 +542,9 @@ def solve_ivp_head(tier="quick", seed=0):
         dense = it.truth(dom.fresh_bool("dense"), "dense")
         y0 = RVec([dom.opaque("y0")])
         opts = RStruct("Options", {"t_eval": some(RVec(te)) if has_te else NONE, "dense_output": dense, "first_step": some(fs) if has_fs else NONE,
-                                   "method": REnum("DOPRI5"), "max_step": NONE, "min_step": NONE, "max_steps": NONE,
+                                   "method": REnum(it.choose(["RK4", "RK23", "DOPRI5", "DOP853", "RADAU", "BDF"], "method")),
+                                   "max_step": NONE, "min_step": NONE, "max_steps": NONE, "nind1": NONE, "nind2": NONE, "nind3": NONE,
+                                   "jac_storage": REnum("Full"), "mass_storage": REnum("Identity"),
                                    "rtol": M.tol_scalar(dom.const(Fraction(1, 1000))), "atol": M.tol_scalar(dom.const(Fraction(1, 10 ** 6)))})
         try:
             r = it.call_fn("solve_ivp", [Ode(), x0, xend, y0, opts])
@@ -565,5 +601,24 @@ def solve_ivp_head(tier="quick", seed=0):
                 ob.check(p, zabs(f.t) <= zabs(p.xend.t - p.x0.t) * (1 + qv(4 * EPS)), "the first-output target handed to the handler lies beyond xend (first_step larger than the interval)")
         else:
             ob.check(p, g["first_step"].name == "None", "handler receives a first_step although none was given")
-    return ob.result(t0, {"functions": ["solve_ivp (head: zero-interval shortcut, handler construction)"], "bounds": f"{len(paths)} paths; options symbolic (t_eval of length 2, first_step > 0, dense flag)"},
+        ob.check(p, "solver" in g, "solve_ivp does not dispatch to a solver")
+    # the solver is configured and called identically whatever the OUTPUT options are (t_eval, dense_output):
+    # group the dispatched paths by (method, first_step given) and compare what reached the builder / solve()
+    import re as _re
+
+    def norm(v):
+        return _re.sub(r"!\d+", "", repr(v))
+
+    groups = {}
+    for p in paths:
+        if p.outcome == ("end", "dispatched"):
+            key = (p.got["solver"], p.has_fs)
+            sig = (norm(p.got["builder_args"]), norm([a for a in p.got["solve_args"] if not a.__class__.__name__ == "REnum" or True][:6]))
+            groups.setdefault(key, []).append((sig, p))
+    for key, lst in groups.items():
+        ref = lst[0][0]
+        for sig, p in lst[1:]:
+            ob.check(p, sig[0] == ref[0], f"{key[0]}: the solver is configured differently depending on t_eval / dense_output (builder arguments {sig[0][:80]} vs {ref[0][:80]})")
+    ob.check(paths[0], len(groups) >= 6, "not every method is dispatched")
+    return ob.result(t0, {"functions": ["solve_ivp (zero-interval shortcut, handler construction, solver dispatch: builder arguments)"], "bounds": f"{len(paths)} paths; options symbolic (t_eval of length 2, first_step > 0, dense flag)"},
                      replay_fn=lambda f: replay.first_step_replay())
